@@ -311,4 +311,4 @@ def check(model, rep, tier):
     # a binned batch loader loads through per-tomogram loaders rebuilt from it: they must inherit its (binned) scale and every other setting
     from .generic import rebuild_ctor_obligations, functions_in
     rebuild_ctor_obligations(model, rep, functions_in(model, ["acryo/loader/_batch.py"]), "scale")
-    rep.floor("CTOR", 2, "(LoaderAccessor rebuilds per-tomogram loaders from the batch loader)")
+    rep.floor("CTOR", 1, "(LoaderAccessor rebuilds per-tomogram loaders from the batch loader, directly or in one shared helper)")
